@@ -447,4 +447,203 @@ theorem point_record (root : Root) (env : World) (R : Reg) (p : Comp) (n : Name)
     simp only [pointDecl, pointBody]
     cases lastPresent ((R.deps n).map i) <;> simp
 
+
+/-! ### hierarchies (registry points re-declared in intermediate classes) -/
+
+/-- every handler but the last of each (top class, name, context) table has been told to ignore the context -/
+def HInvA (r : HReg) : Prop := ∀ t n c v, v ∈ (r.handlers t n c).dropLast → c ∈ r.ignore v
+/-- …and nobody else has -/
+def HInvB (r : HReg) : Prop := ∀ v c, c ∈ r.ignore v → ∃ t n, v ∈ (r.handlers t n c).dropLast
+
+theorem hAddHandler_InvA (t0 : ClassId) (n0 : Name) (v0 : Comp) (r : HReg) (c0 : Comp) (hr : HInvA r) :
+    HInvA (hAddHandler t0 n0 v0 r c0) := by
+  intro t n c v hv
+  simp only [hAddHandler] at hv ⊢
+  by_cases hk : t = t0 ∧ n = n0 ∧ c = c0
+  · obtain ⟨rfl, rfl, rfl⟩ := hk
+    simp only [and_self, if_true, List.dropLast_concat] at hv
+    simp [hv]
+  · simp only [hk, if_false] at hv
+    have := hr t n c v hv
+    split <;> simp [this]
+
+theorem hAddHandler_InvB (t0 : ClassId) (n0 : Name) (v0 : Comp) (r : HReg) (c0 : Comp) (hr : HInvB r) :
+    HInvB (hAddHandler t0 n0 v0 r c0) := by
+  intro v c hc
+  simp only [hAddHandler] at hc ⊢
+  have old : c ∈ r.ignore v → ∃ t n, v ∈ (if t = t0 ∧ n = n0 ∧ c = c0 then r.handlers t0 n0 c0 ++ [v0] else r.handlers t n c).dropLast := by
+    intro h
+    obtain ⟨t, n, hn⟩ := hr v c h
+    refine ⟨t, n, ?_⟩
+    by_cases hk : t = t0 ∧ n = n0 ∧ c = c0
+    · obtain ⟨rfl, rfl, rfl⟩ := hk
+      simp only [and_self, if_true, List.dropLast_concat]
+      exact List.dropLast_subset _ hn
+    · simp only [hk, if_false]; exact hn
+  by_cases ho : (r.handlers t0 n0 c0).contains v = true
+  · simp only [ho, if_true, List.mem_append, List.mem_singleton] at hc
+    rcases hc with h | h
+    · exact old h
+    · subst h
+      refine ⟨t0, n0, ?_⟩
+      simp only [and_self, if_true, List.dropLast_concat]
+      simpa using ho
+  · simp only [ho] at hc
+    exact old hc
+
+/-- an invariant of the handler tables and the ignore table that `hAddHandler` preserves holds after any history -/
+theorem hregister_inv (P : HReg → Prop) (h0 : P HReg.empty)
+    (hframe : ∀ r r' : HReg, r'.handlers = r.handlers → r'.ignore = r.ignore → P r → P r')
+    (ha : ∀ t n v r c, P r → P (hAddHandler t n v r c)) (h : HHistory) : P (hRegister h) := by
+  have hatt : ∀ ps n v ctxs r, P r → P (hAttach ps n v ctxs r) := by
+    intro ps n v ctxs r hr
+    have h1 : ∀ f : Comp → List Comp, P { r with deps := f } := fun f => hframe r _ rfl rfl hr
+    unfold hAttach
+    split
+    · exact hr
+    · split
+      · exact hr
+      · simp only []
+        split
+        · exact h1 _
+        · exact foldl_inv _ P (fun b a hb => ha _ _ _ b a hb) _ _ (h1 _)
+  apply foldl_inv _ P _ _ _ h0
+  intro r cd hr
+  have hfold : P (cd.entries.foldl (hRegEntry r.nclasses cd.parents) r) := by
+    apply foldl_inv _ P _ _ _ hr
+    intro r1 e hr1
+    unfold hRegEntry
+    split
+    · exact hatt _ _ _ _ _ (hframe r1 _ rfl rfl hr1)
+    · exact hatt _ _ _ _ _ hr1
+  exact hframe (cd.entries.foldl (hRegEntry r.nclasses cd.parents) r) (hRegClass r cd) rfl rfl hfold
+
+theorem hregister_InvA (h : HHistory) : HInvA (hRegister h) :=
+  hregister_inv HInvA (by intro t n c v hv; simp [HReg.empty] at hv)
+    (by intro r r' hh hi hr t n c v hv; rw [hi]; rw [hh] at hv; exact hr t n c v hv) hAddHandler_InvA h
+
+theorem hregister_InvB (h : HHistory) : HInvB (hRegister h) :=
+  hregister_inv HInvB (by intro v c hc; simp [HReg.empty] at hc)
+    (by intro r r' hh hi hr v c hc; rw [hi] at hc; rw [hh]; exact hr v c hc) hAddHandler_InvB h
+
+/-- where a registration lands: in a chain `pre ++ t :: rest` whose classes down to `t` all declare the name
+and whose next class (if any) does not, the handler table used is the one of `t` -/
+theorem handlerRoot_eq (r : HReg) (n : Name) (pre rest : List ClassId) (t : ClassId)
+    (hpre : ∀ x ∈ pre, (r.registry x n).isSome = true) (ht : (r.registry t n).isSome = true)
+    (hrest : ∀ y, rest.head? = some y → (r.registry y n).isSome = false) :
+    handlerRoot r (pre ++ t :: rest) n = some t := by
+  unfold handlerRoot
+  have h1 : (pre ++ t :: rest).takeWhile (fun x => (r.registry x n).isSome) = pre ++ [t] := by
+    induction pre with
+    | nil =>
+      simp only [List.nil_append, List.takeWhile_cons, ht, if_true]
+      cases rest with
+      | nil => rfl
+      | cons y ys => simp [List.takeWhile_cons, hrest y rfl]
+    | cons a pre ih =>
+      simp only [List.cons_append, List.takeWhile_cons, hpre a (by simp), if_true]
+      rw [ih (fun x hx => hpre x (by simp [hx]))]
+  rw [h1]; simp
+
+theorem lastPresent_eq_none (args : List (Option Val)) (h : lastPresent args = none) : ∀ a ∈ args, a = none := by
+  induction args with
+  | nil => intro a ha; simp at ha
+  | cons a t ih =>
+    simp only [lastPresent] at h
+    cases ht : lastPresent t with
+    | some u => simp [ht] at h
+    | none =>
+      simp only [ht] at h
+      intro b hb
+      rcases List.mem_cons.mp hb with rfl | hb
+      · exact h
+      · exact ih ht b hb
+
+/-- when every present entry is `x`, the point returns nothing or `x` -/
+theorem lastPresent_all_eq (args : List (Option Val)) (x : Option Val) (h : ∀ a ∈ args, a = none ∨ a = x) :
+    lastPresent args = none ∨ lastPresent args = x := by
+  cases hl : lastPresent args with
+  | none => exact Or.inl rfl
+  | some v =>
+    rcases h _ (lastPresent_mem args v hl) with h1 | h1
+    · cases h1
+    · exact Or.inr h1
+
+/-- …and exactly `x` when `x` is among the entries -/
+theorem lastPresent_all_eq_mem (args : List (Option Val)) (x : Option Val) (h : ∀ a ∈ args, a = none ∨ a = x)
+    (hx : x ∈ args) : lastPresent args = x := by
+  rcases lastPresent_all_eq args x h with h1 | h1
+  · rw [h1]; exact (lastPresent_eq_none args h1 x hx).symm
+  · exact h1
+
+/-- what the step of a registry point (at any level of a hierarchy) records -/
+theorem hpoint_record (env : World) (R : HReg) (p : Comp) (hp : R.isPoint p = true)
+    (i : Inst) (hin : inG p = true) (hen : env.enabled p = true) (hign : ∀ x ∈ R.ignore p, present i x = false) :
+    (record (hWorld env R) inG ss p i).val = lastPresent ((R.deps p).map i) := by
+  have hd : (hWorld env R).decl p = some (pointDecl (R.deps p)) := by simp [hWorld, hp]
+  have hb : ∀ args, (hWorld env R).body p args = pointBody args := by intro args; simp [hWorld, hp]
+  have hel : eligible (hWorld env R) inG p = true := by simp [eligible, hin, hd]; simp [hWorld, hen]
+  have hig : ((hWorld env R).ignore p).any (present i) = false := by
+    simp only [hWorld, List.any_eq_false]; intro x hx; simp [hign x hx]
+  unfold record
+  rw [if_pos hel]
+  simp only [hd]
+  unfold process
+  simp only [hig]
+  by_cases hall : (R.deps p).all (fun m => !present i m) = true
+  · have hm : missingDeps (pointDecl (R.deps p)) i = some ⟨[], [R.deps p]⟩ := by
+      simp [missingDeps, pointDecl, Decl.requires, Decl.atLeastOne, hall]
+    have hl : lastPresent ((R.deps p).map i) = none := by
+      apply lastPresent_none
+      intro a ha
+      obtain ⟨v, hv, rfl⟩ := List.mem_map.mp ha
+      have := List.all_eq_true.mp hall v hv
+      simpa [present] using this
+    simp only [hm]
+    simp [pointDecl, hl]
+  · have hm : missingDeps (pointDecl (R.deps p)) i = none := by
+      simp [missingDeps, pointDecl, Decl.requires, Decl.atLeastOne, hall]
+    have hdeps : (pointDecl (R.deps p)).deps = R.deps p := by simp [Decl.deps, pointDecl]
+    simp only [hm]
+    unfold invoke
+    simp only [hdeps, hb]
+    simp only [pointDecl, pointBody]
+    cases lastPresent ((R.deps p).map i) <;> simp
+
+/-- `v` is reached from the registry point `p` through dependency lists, passing through registry points only -/
+inductive Path (R : HReg) : Comp → Comp → Prop
+  | direct (p v : Comp) : R.isPoint p = true → v ∈ R.deps p → Path R p v
+  | step (p q v : Comp) : R.isPoint p = true → q ∈ R.deps p → Path R q v → Path R p v
+
+
+theorem hfoldCtx_deps (t : ClassId) (n : Name) (v : Comp) (cs : List Comp) (r : HReg) :
+    (cs.foldl (hAddHandler t n v) r).deps = r.deps ∧ (cs.foldl (hAddHandler t n v) r).registry = r.registry ∧
+    (cs.foldl (hAddHandler t n v) r).isPoint = r.isPoint := by
+  induction cs generalizing r with
+  | nil => exact ⟨rfl, rfl, rfl⟩
+  | cons c cs ih => rw [List.foldl_cons]; obtain ⟨a, b, d⟩ := ih (hAddHandler t n v r c); exact ⟨a, b, d⟩
+
+theorem hfoldCtx_handlers (t : ClassId) (n : Name) (v : Comp) (cs : List Comp) (hnd : cs.Nodup) (r : HReg)
+    (k : ClassId) (m : Name) (d : Comp) :
+    (cs.foldl (hAddHandler t n v) r).handlers k m d =
+      if k = t ∧ m = n ∧ d ∈ cs then r.handlers k m d ++ [v] else r.handlers k m d := by
+  induction cs generalizing r with
+  | nil => simp
+  | cons c cs ih =>
+    have hc : c ∉ cs := (List.nodup_cons.mp hnd).1
+    rw [List.foldl_cons, ih (List.nodup_cons.mp hnd).2]
+    by_cases hk : k = t ∧ m = n
+    · obtain ⟨rfl, rfl⟩ := hk
+      by_cases hdc : d = c
+      · subst hdc
+        simp [hAddHandler, hc]
+      · by_cases hd : d ∈ cs
+        · simp [hAddHandler, hd, hdc]
+        · simp [hAddHandler, hd, hdc]
+    · have hk' : ¬(k = t ∧ m = n ∧ d ∈ cs) := fun hh => hk ⟨hh.1, hh.2.1⟩
+      have hk'' : ¬(k = t ∧ m = n ∧ d ∈ c :: cs) := fun hh => hk ⟨hh.1, hh.2.1⟩
+      have hk3 : ¬(k = t ∧ m = n ∧ d = c) := fun hh => hk ⟨hh.1, hh.2.1⟩
+      simp only [hk', hk'', if_false]
+      simp [hAddHandler, hk3]
+
 end IV.Specs
